@@ -364,6 +364,33 @@ pub fn drive_deadband(s: &mut Session, rng: &mut Rng, runs: usize) {
     }
 }
 
+/// the fastest setting held for an exact number of samples (255 .. 257, 65 535 .. 65 537, 131 072) in the
+/// middle of a glide, then a slow time again: whatever a "glide is off" shortcut counts or skips, the glide
+/// resumes from where the output is (the input is held throughout, so the output may not move away from it)
+pub fn drive_fast_counts(s: &mut Session, rng: &mut Rng) {
+    for &n in [255u32, 256, 257, 65535, 65536, 65537, 131072].iter() {
+        for &fs in [1000u32, 48000].iter() {
+            s.start(fs);
+            s.set_time(0.8);
+            s.hold(0.0, 4, 4);
+            s.process(1.0);
+            s.stretch(fs / 10);
+            s.process(1.0);
+            s.set_time(if rng.chance(1, 2) { 0.0 } else { 1.0 / fs as f32 });
+            s.process(1.0);
+            s.stretch(n - 2);
+            s.process(1.0);
+            s.set_time(2.0);
+            for _ in 0..6 {
+                s.process(1.0);
+            }
+            s.process(0.25);
+            s.stretch(fs / 20);
+            s.process(0.25);
+        }
+    }
+}
+
 /// requests just outside the dead band (0.05 s + 0.2 .. 0.9 ms, i.e. within one sample period of its edge at
 /// 1 kHz but far beyond the rounding of the comparison) must be honoured, requests just inside it (0.05 s
 /// - 0.5 ms) are not: short times, where a difference of 0.05 s is a factor of 1.3 .. 1.8 in the time and C14's
@@ -474,6 +501,7 @@ pub fn record(driver: &str, seed: u64, thorough: bool, out: &mut Out) -> Stats {
             drive_stall(&mut s, &mut rng, if thorough { 300 } else { 30 });
             drive_huge(&mut s, &mut rng, if thorough { 200 } else { 20 });
             drive_tiny(&mut s, &mut rng, if thorough { 120 } else { 16 });
+            drive_fast_counts(&mut s, &mut rng);
         }
         "deadband" => {
             drive_deadband(&mut s, &mut rng, if thorough { 400 } else { 40 });
